@@ -9,7 +9,7 @@ ids = [p['id'] for p in props]
 T_BX = 'bounded-exhaustive enumeration of a finite input universe on the real code (explicit-state, no sampling), '
 CHECKS = {
  'C01': ('BX', 'model_checking', T_BX + 'differential against the public per-rule matcher + independent precedence combiner',
-   'All ordered lists of <= 2 (quick) / <= 3 (thorough) rules of a 61-rule alphabet (one rule per shortcut of the token index, twins that differ in one attribute a dedup key could miss, hosts lines) are built into real engines and queried under every tag subset with a request universe in which every rule token occurs as whole token, proper suffix, proper prefix, first and last; bucket-forcing lists store each rule under each of its tokens in turn; a frozen corpus of 3 613 real rules is loaded as one list against URLs derived from every rule; every verdict field is compared with rule-by-rule evaluation. Exhaustive within the bound.',
+   'All ordered lists of <= 2 (quick) / <= 3 (thorough) rules of a 61-rule alphabet (one rule per shortcut of the token index, twins that differ in one attribute a dedup key could miss, hosts lines) are built into real engines and queried under every tag subset with a request universe in which every rule token occurs as whole token, proper suffix, proper prefix, first and last; bucket-forcing lists store each rule under each of its tokens in turn; every cell of the shared rule cube (about 55 pattern shapes x 25 option sets x exception) runs alone and next to 7 partner rules; every (blocking, exception, modifier) triple of the alphabet; n same-bucket rules for every n up to 120 / 300; a frozen corpus of 3 613 real rules is loaded as one list against URLs derived from every rule; the request universe includes non-ASCII paths and URLs of 150 / 400 tokens; every verdict field is compared with rule-by-rule evaluation. Exhaustive within the bound.',
    'Per-rule match is taken from the real NetworkFilter::matches (its correctness is C02/C03); combiner, redirect, removeparam and CSP references are independent. seahash collision freedom checked for the alphabet.', 'DESIGN §4 C01'),
  'C02': ('BX', 'model_checking', T_BX + 'compared with an independent reference pattern matcher',
    'Every pattern body up to length 6 (quick) / 7 (thorough) over {a,b,.,/,*,^} in eight anchor modes (none, |, trailing |, both, ||, || with trailing |, and two scheme-prefixed left anchors) is parsed by the real parser and matched by the real matcher against every URL of a universe built to make the anchor text collide (repeated, prefix, suffix, userinfo); each verdict is compared with a 100-line reference written from the property text; weakening relations and a curated full-regex universe are added.',
@@ -20,8 +20,8 @@ CHECKS = {
  'C04': ('BX', 'model_checking', T_BX + 'precedence reference + monotonicity relation + alias-normalising badfilter oracle',
    'Every base list x extra rule x insertion position (two real engines each) is checked for blocked==spec and both monotonicity implications; every ordered pair of 188 rule spellings is checked for badfilter cancellation against an oracle that normalises aliases and option order.',
    'Tag differences between a rule and its badfilter twin, and semantically-equal-but-textually-different type lists, are outside the domain.', 'DESIGN §4 C04'),
- 'C05': ('BX', 'model_checking', T_BX + 'differential between three configurations of the real code (optimised at build, unoptimised, optimize() on the live blocker)',
-   'All ordered lists <= 2 / unordered lists of 3 (quick; +1 thorough) over a 56-rule alphabet whose rules share buckets (including the wildcard bucket of token-less rules) and differ in one fusion-relevant attribute or one mask bit, under every tag subset, against 330 requests.',
+ 'C05': ('BX', 'model_checking', T_BX + 'differential between five configurations of the real code (optimised at build, unoptimised, optimize() twice on the live blocker, optimize() after every tag switch, optimised build + add_filter + optimize())',
+   'All ordered lists <= 2 / unordered lists of 3 (quick; +1 thorough) over a 63-rule alphabet whose rules share buckets (including the wildcard bucket of token-less rules, empty patterns, an uncompilable regex) and differ in one fusion-relevant attribute or one mask bit; all pairs (thorough: triples) of rule-cube cells with equal options and all cross-option pairs of same-bucket patterns; n fusable same-bucket rules for every n up to 130 / 400 plus sizes around powers of two up to 3 000 (plain and RegexSet families); five real blockers per list, under every tag subset.',
    'The unoptimised engine is the reference (its own correctness is C01).', 'DESIGN §4 C05'),
  'C06': ('HX', 'model_checking', 'exhaustive enumeration of operation histories up to a depth on fresh real subjects under a deterministic LIFO allocator, step-by-step comparison with a freshly built engine for the model state',
    'Four scenarios (tags + regex cache + serialisation on an Engine; add_filter + optimize on a Blocker; cosmetic + scriptlet resources; batch vs incremental construction); every history of depth 5/4/5 (quick) or 6/5/6 (thorough) whose last operation is a query is executed (S1: every operation at depth d-1, the core operations at depth d); environment answers (cleanup timer fired, regex discarded) are operations of the alphabet; failing histories are shrunk before classification.',
@@ -30,10 +30,10 @@ CHECKS = {
    'All 2 048 subsets of an 11-rule pool (every category a tag combines with, same-bucket untagged neighbours) x optimise x 8 tag sets; all sequences of <= 3 (quick) / 4 (thorough) of 28 tag/deserialize operations on 4 lists; tag_exists after every step, full battery at the end.',
    'The tag-stripped reference engine is built by the same crate (differential).', 'DESIGN §4 C07'),
  'C08': ('BX', 'model_checking', T_BX + 'differential between the original engine and the engine reloaded from its serialisation, field by field',
-   'All ordered lists of <= 2 (quick) / <= 3 (thorough) rules of an 87-rule alphabet (every network and cosmetic rule shape, twins) x debug x optimise x list permission (including mixed-permission lists), serialised and loaded into three kinds of loader, compared on 398 queries (network under every tag subset, CSP, cosmetic, class/id).',
+   'All ordered lists of <= 2 (quick) / <= 3 (thorough) rules of an 87-rule alphabet (every network and cosmetic rule shape, twins) x debug x optimise x list permission (including mixed-permission lists), plus every rule-cube cell alone and with a same-pattern neighbour, serialised and loaded into five kinds of receiver (fresh, tags preset, used engine holding other rules, and two receivers whose tag set differs from the one the producer had at save time), compared on 398 queries (network under every tag subset, CSP, cosmetic, class/id).',
    'The two format defects found by this check (removeparam rules and scriptlet permissions were not serialised) are repaired in /repo (fix: 7c0000a, ade9355); their witnesses are replayed on every run.', 'DESIGN §4 C08'),
  'C09': ('BX', 'model_checking', T_BX + 'byte equality of repeated, cross-thread and cross-process serialisations; reload fixpoint',
-   'Same lists as C08 plus 458 wide lists (>= 4 entries per internal container); every list is built and serialised 6 (quick) / 12 (thorough) times, once in a fresh thread and (every 16th list / every wide list) in a child process; every buffer is reloaded and re-serialised.',
+   'Same lists as C08 plus the rule cube, plus ~600 wide lists (>= 4 entries per internal container, repeated rules, shared buckets); every tag set is also reached by enabling one tag at a time and by disabling from the full set; every list is built and serialised 6 (quick) / 12 (thorough) times, once in a fresh thread and (every 16th list / every wide list) in a child process; every buffer is reloaded and re-serialised.',
    'Inputs exhaustive to the bound; hash seeds of std HashMap are redrawn, not enumerable: exhaustive=false is reported for that dimension.', 'DESIGN §4 C09'),
  'C10': ('FX', 'fault_enumeration', 'exhaustive fault enumeration (every prefix, every single-bit flip, every structural-byte substitution, huge-length splices, header variants) of valid serialized buffers, each loaded in a child process under an allocation and time ceiling',
    '4 (quick) / 12 (thorough) valid buffers; every prefix, bit flip, structural substitution, huge length, version byte, string replacement, header variant; thorough adds substitution pairs and bit-flip pairs; cross-overs between two valid buffers at every pair of structural offsets; post-conditions: no panic or abort, bounded allocation, atomicity on error (battery + serialisation unchanged), usability on success (battery built from the buffer strings + re-serialisation).',
@@ -63,8 +63,8 @@ CHECKS = {
    'All 256x256 permission pairs directly and through the full engine path; every dependency graph on 3 nodes (110 592 base graphs) x node permissions x injection lists in every order through the public get_scriptlet_resources (hash order enumerated, not drawn); every argument string of <= 3 (quick) / 4 (thorough) symbols over 13 symbols x 8 spellings x 3 positions; all pairs of 20 +js bodies for exceptions.',
    'Ambiguous +js spellings (unbalanced quotes, text after a closing quote, runs of backslashes before a separator) are Unspecified; the emitted literal must still be well-formed.', 'DESIGN §4 C18'),
  'C19': ('SX+BX', 'model_checking', 'stateless DFS over thread interleavings of the real Sync build with iterative preemption bounding (CHESS-style), blocking decided by the real Mutex::try_lock through a cfg-guarded seam; plus cross-configuration differential',
-   'Six thread plans (2x2, 3x1, 3x2, 2x3, mixed queries, URL-rewriting rules) of real OS threads on one shared engine, all schedules with <= 2 (quick) / <= 3-4 (thorough) preemptions; every answer compared with the sequential answer; deadlock, panic and poisoning detected; every violating schedule replayed twice. The single-thread build writes answer hashes for 3 722 rule lists x 1 881 requests, the thread-safe build recomputes them.',
-   'No preemption between scheduling points (sound if nothing shared is mutated outside the lock: checked by a non-exhaustive free-running Miri pass in the thorough tier). Weak memory not modelled.', 'DESIGN §4 C19, §5'),
+   'Nine thread plans (2x2, 3x1, 3x2, 2x3, mixed queries, URL-rewriting rules, blocked+excepted+rewritten requests, pages with opposite generichide verdicts, pages with different CSP answers) of real OS threads on one shared engine, all schedules with <= 2 (quick) / <= 3-4 (thorough) preemptions; every answer compared with the sequential answer; deadlock, panic and poisoning detected; every violating schedule replayed twice. The single-thread build writes answer hashes for 3 722 rule lists x 1 881 requests, the thread-safe build recomputes them.',
+   'No preemption between scheduling points: exhaustive for the events of the seam, sound for the program as long as nothing shared is mutated outside the regex-manager lock. That assumption is only sampled: a free-running stress pass (8 real threads, every answer compared with the sequential one) in both tiers and a Miri pass in the thorough tier; neither is exhaustive and the evidence says so. A thread blocked on a lock outside the seam is reported by a watchdog as a deadlock of that schedule. Weak memory not modelled.', 'DESIGN §4 C19, §5'),
  'C20': ('BX', 'model_checking', T_BX + 'post-conditions on every emitted rule (ASCII, Safari regex-subset recogniser, ordering, filters_used) + inclusion against the real matcher',
    'Every pattern body of <= 6 (quick) / 7 (thorough) symbols x anchor modes x option frames as singleton sets, the single-edit neighbourhood of a 135-rule alphabet, and all ordered lists of <= 2/3 alphabet rules.',
    'Order of filters_used is compared as a multiset (network rules are always reported before cosmetic ones).', 'DESIGN §4 C20'),
